@@ -126,7 +126,7 @@ def final_of(res):
     return out
 
 
-def compare_runs(make_handler, ci, cc, after, psel, k0, k1, setup=None):
+def compare_runs(make_handler, ci, cc, after, psel, k0, k1, setup=None, race=False):
     ob, ov = Obs(), Obs()
     b0 = Backend()
     if setup:
@@ -136,7 +136,7 @@ def compare_runs(make_handler, ci, cc, after, psel, k0, k1, setup=None):
     b1 = variant_backend(ci, cc, after, psel)
     if setup:
         setup(b1)
-    r1 = run_execution(make_handler(ov), b1, ksteps=[k0, k1], on_invocation=lambda i: setattr(ov, "inv", i))
+    r1 = run_execution(make_handler(ov), b1, ksteps=[k0, k1], on_invocation=lambda i: setattr(ov, "inv", i), race=race)
     h.check(r1.deadlock is None, "an invocation blocked forever")
     h.check(r1.final is not None, "interrupted run did not terminate within 6 invocations")
     if any(o == ("crash",) for o in r1.outputs):
@@ -334,6 +334,30 @@ for _t in TEMPLATES:
         _f = _mk_lemma(_t, _p)
         globals()[_f.__name__] = _f
 del _f, _t, _p
+
+
+def _mk_race_lemma(tname):
+    """thorough tier: the same differential run with the IMMEDIATE-WAKE race switched on (a caller woken by Event.set runs before the setter's next statement)"""
+    tmpl, desc = TEMPLATES[tname]
+
+    def lem(a: int, b: int, c: int, flag: bool, ci: int, cc: int, after: bool, kk: bool):
+        """
+        pre: 0 <= ci <= 3 and 1 <= cc <= 4
+        post: True
+        """
+        mk, setup = tmpl(a, b, c, flag)
+        compare_runs(mk, ci, cc, after, 1, 2 if kk else 0, 0, setup, race=True)
+        h.end()
+
+    lem.__name__ = lem.__qualname__ = f"t_{tname}_immediate_wake"
+    return h.lemma(timeout=1800, thorough_timeout=1800, funcs=FUNCS, reach=("end", "crashed"), tier="thorough",
+                   bounds=_B + f"history page size {PAGE[1]}; woken callers run IMMEDIATELY inside Event.set; template: {desc}")(lem)
+
+
+for _t in TEMPLATES:
+    _f = _mk_race_lemma(_t)
+    globals()[_f.__name__] = _f
+del _f, _t
 
 
 @h.lemma(timeout=300, funcs=FUNCS, reach=("end",),
